@@ -149,6 +149,15 @@ func IteU64(c bool, a, b uint64) uint64 {
 	}
 	return b
 }
+func ParamOr(name string, def int) int {
+	if s := os.Getenv("VERIF_PARAM_" + name); s != "" {
+		var v int
+		fmt.Sscan(s, &v)
+		return v
+	}
+	return def
+}
+
 func B2U(b bool) uint64 {
 	if b {
 		return 1
